@@ -20,6 +20,10 @@ class Verdict:
     note: str = ""
     kind: str = "R"
     smt2: str = ""
+    relevant: bool = False
+    relevance_note: str = ""
+    contract: str = ""
+    lean_name: str = ""
 
 
 def model_dict(m: z3.ModelRef):
